@@ -505,7 +505,7 @@ fn check_tokens(ctx: &mut Ctx, tk: &Tk, fls: &[Fl], text: &str) {
             ctx.report.violation("model", "C19:filter-chain-mismatch", format!("filter chain output: real {} model {}: {desc}", &r[..r.len().min(160)], &m[..m.len().min(160)]), case.clone());
             return;
         }
-    } else if *tk != Tk::Facet || toks.len() <= 64 {
+    } else if (toks.len() as u64) * (text.len() as u64) <= 3_000_000 && (*tk != Tk::Facet || toks.len() <= 64) {
         let m = ctx.model.ask(&model_tok_request(tk, text, "tokt"));
         let r = enc_tokens(&toks);
         if m != r {
@@ -1023,19 +1023,22 @@ pub fn run(ctx: &mut Ctx) {
     }
     let t0 = std::time::Instant::now();
     let mut slowest: (f64, String) = (0.0, String::new());
-    let texts = ctx.budget(2500, 60_000);
+    let texts = ctx.budget(3000, 60_000);
     for _ in 0..texts {
         let mut rng = ctx.rng.fork();
         let text = gen_text(&mut rng);
         let n_an = if text.len() > 4000 { 2 } else { 4 };
         for _ in 0..n_an {
             let mut tk = gen_tokenizer(&mut rng);
-            if text.len() > 4000 {
-                // keep the quadratic blow-up of wide n-grams and per-suffix regex evaluation away from very long texts
-                if let Tk::Ngram { max, .. } = &tk {
-                    if *max > 5 { tk = Tk::Simple; }
+            // keep the quadratic blow-up of wide n-grams (tokens × token length) and the per-suffix
+            // regex evaluation away from long texts
+            if let Tk::Ngram { min, max, prefix } = &tk {
+                if *max > 5 && text.len() > 400 {
+                    tk = Tk::Ngram { min: (*min).min(5), max: 5, prefix: *prefix };
                 }
-                if matches!(tk, Tk::Regex { .. }) { tk = Tk::Whitespace; }
+            }
+            if text.len() > 4000 && matches!(tk, Tk::Regex { .. }) {
+                tk = Tk::Whitespace;
             }
             let fls = gen_chain(&mut rng);
             let t1 = std::time::Instant::now();
@@ -1048,13 +1051,13 @@ pub fn run(ctx: &mut Ctx) {
     }
     ctx.report.notes.push(format!("timing (informative only): tokenizer cases {:.1}s, slowest {:.2}s: {}", t0.elapsed().as_secs_f64(), slowest.0, slowest.1));
     let t0 = std::time::Instant::now();
-    for _ in 0..ctx.budget(3000, 80_000) {
+    for _ in 0..ctx.budget(10_000, 200_000) {
         snippet_direct(ctx);
     }
-    for _ in 0..ctx.budget(250, 5_000) {
+    for _ in 0..ctx.budget(600, 10_000) {
         snippet_index(ctx);
     }
-    for _ in 0..ctx.budget(500, 10_000) {
+    for _ in 0..ctx.budget(1500, 30_000) {
         collapse_case(ctx);
     }
     ctx.report.notes.push(format!("timing (informative only): snippet + collapse cases {:.1}s", t0.elapsed().as_secs_f64()));
